@@ -220,6 +220,24 @@ def make_ids(rng: random.Random, n: int, order: str, idtype: str):
     raise ValueError(idtype)
 
 
+def pick_threshold(rng: random.Random, edges):
+    """(threshold, kind) of one call: none / boundary values of both arguments / exactly an edge probability / random / a weight."""
+    r = rng.random()
+    ps = sorted({p for _, _, p in edges})
+    if r < 0.22 or not ps:
+        return None, None
+    if r < 0.30:
+        # boundary values of both arguments: falsy-but-given (0, 0.0, -0.0), the ends of [0, 1] and 0.5 (= weight 0), values outside
+        # [0, 1] (nothing / everything qualifies), a literal printed in exponent form, weights whose probability rounds to 1.0 / to ~1e-18
+        return rng.choice([(0, "weight"), (0.0, "weight"), (-0.0, "weight"), (0, "prob"), (0.0, "prob"), (0.5, "prob"), (1.0, "prob"), (1, "prob"),
+                           (1.5, "prob"), (-0.5, "prob"), (1e-07, "prob"), (60, "weight"), (-60.0, "weight")])
+    if r < 0.55:
+        return rng.choice(ps), "prob"  # exactly on an edge probability
+    if r < 0.8:
+        return round(rng.random(), 3), "prob"
+    return round(rng.uniform(-6, 6), 2), "weight"
+
+
 def decorate(rng: random.Random, n: int, pairs, *, engine, entry, order="random", idtype=None, probs=None, thr="auto", tag=""):
     idtype = idtype or rng.choice(["int", "int", "str", "strmixed"])
     ids = make_ids(rng, n, order, idtype)
@@ -239,19 +257,10 @@ def decorate(rng: random.Random, n: int, pairs, *, engine, entry, order="random"
     edges += extra
     case = {"n": n, "ids": ids, "edges": edges, "engine": engine, "entry": entry, "shuffle": rng.randrange(1 << 30), "tag": tag, "order": order, "idtype": idtype}
     if thr == "auto":
-        r = rng.random()
-        ps = sorted({p for _, _, p in edges})
-        if r < 0.22 or not ps:
-            case["thr"] = None
-        elif r < 0.30:
-            # boundary values of both arguments: falsy-but-given (0, 0.0, -0.0), the ends of [0, 1] and 0.5 (= weight 0)
-            case["thr"], case["thr_kind"] = rng.choice([(0, "weight"), (0.0, "weight"), (-0.0, "weight"), (0, "prob"), (0.0, "prob"), (0.5, "prob"), (1.0, "prob"), (1, "prob")])
-        elif r < 0.55:
-            case["thr"], case["thr_kind"] = rng.choice(ps), "prob"  # exactly on an edge probability
-        elif r < 0.8:
-            case["thr"], case["thr_kind"] = round(rng.random(), 3), "prob"
-        else:
-            case["thr"], case["thr_kind"] = round(rng.uniform(-6, 6), 2), "weight"
+        t, kind = pick_threshold(rng, edges)
+        case["thr"] = t
+        if t is not None:
+            case["thr_kind"] = kind
     elif thr is not None:
         case["thr"], case["thr_kind"] = thr
     if entry == "linker":
@@ -273,6 +282,456 @@ def decorate(rng: random.Random, n: int, pairs, *, engine, entry, order="random"
             case["link_type"] = rng.choice(["link_and_dedupe", "link_only"])
             case["layout"] = "concat" if rng.random() < 0.35 else "tables"
     return case
+
+
+# --------------------------------------------------------------------------- sessions: several calls on ONE database API object
+# A session is {"session": True, "engine", "entry", "steps": [step, ...]}; every step is a complete single-call case (ids, edges, thr,
+# thr_kind, sds ...: the oracle and the model request read it like any other case) plus HOW the call is made:
+#   k          the step's number (names of the tables the harness registers derive from it)
+#   keep       keep the returned SplinkDataFrame alive (and read it AGAIN after the last call) / drop it right after reading it
+#   fn:     form = (nodes form, edges form) out of FN_FORMS, cols = (node id column, left edge column | None, right edge column | None)
+#   linker: epoch (a new number = a NEW Linker on the same database API), form out of PREDICT_FORMS, uid_col, sd_col, alias
+#   extra_cols (further columns, id columns not first), no_prob_col (edge table without match_probability; only without a threshold)
+FN_FORMS = ("raw_pandas", "raw_records", "raw_dict", "sdf_new", "sdf_same", "name_new", "name_same", "reuse")
+FN_FORM_WEIGHTED = ("raw_pandas", "raw_pandas", "raw_records", "raw_dict", "sdf_new", "sdf_new", "sdf_same", "sdf_same", "name_new", "name_same")
+PREDICT_FORMS = ("predict_overwrite", "table_new", "table_same", "reuse")
+FN_COLS = [("my_id", "n_1", "n_2"), ("unique_id", None, None), ("node", None, None), ("my_id", "n_1", None), ("Rec_ID", None, "other_end")]
+
+
+def _step_content(st: dict):
+    return (list(st["ids"]), [tuple(e) for e in st["edges"]], list(st.get("sds") or []))
+
+
+def _same_call_shape(a: dict, b: dict) -> bool:
+    """Could step b be made with the very objects step a was made with?  (same tables, same column names, same linker)"""
+    keys = ("cols", "epoch", "uid_col", "sd_col", "extra_cols", "no_prob_col", "shuffle")
+    return _step_content(a) == _step_content(b) and all(_tup(a.get(k)) == _tup(b.get(k)) for k in keys)
+
+
+def _tup(x):
+    return tuple(x) if isinstance(x, list) else x
+
+
+def step_table_names(steps: list[dict], i: int):
+    """Symbolic names of the input tables of call i as far as the CALLER (or Splink's fixed naming) chose them; None = raw data.
+    fn: (nodes, edges); linker: (input tables, predictions)."""
+    st = steps[i]
+    form = _tup(st["form"])
+    if st["entry"] == "fn":
+        out = []
+        for which, f in zip(("nodes", "edges"), form):
+            if f == "reuse" and i > 0 and _same_call_shape(steps[i - 1], st):
+                out.append(step_table_names(steps, i - 1)[0 if which == "nodes" else 1])
+            elif f.endswith("_same"):
+                out.append(f"user_{which}")
+            elif f.endswith("_new"):
+                out.append(f"user_{which}_{st['k']}")
+            else:
+                out.append(None)
+        return tuple(out)
+    inputs = st.get("alias") or "__splink__input_table_<i>"
+    if len(set(st["sds"])) > 1 and st.get("layout") != "concat":
+        inputs = tuple(sorted(set(st["sds"])))
+    if form == "reuse" and i > 0 and _same_call_shape(steps[i - 1], st):
+        return step_table_names(steps, i - 1)
+    pred = {"table_new": f"user_pred_{st['k']}", "table_same": "user_pred"}.get(form, "__splink__df_predict")
+    return (inputs, pred)
+
+
+def input_names_reused(sess: dict, i: int) -> bool:
+    """Call i reads only tables whose names an EARLIER call of the session used for different content (re-registration under a fixed
+    name: register_table(..., overwrite=True), register_table_predict(..., overwrite=True), a second Linker with default aliases)."""
+    steps = sess["steps"]
+    names = step_table_names(steps, i)
+    if any(x is None for x in names):
+        return False
+    return any(step_table_names(steps, j) == names and _step_content(steps[j]) != _step_content(steps[i]) for j in range(i))
+
+
+def _idt(st: dict) -> str:
+    ids = st["ids"]
+    if ids:
+        return "str" if isinstance(ids[0], str) else "int"
+    return "str" if str(st.get("idtype", "int")).startswith("str") else "int"  # an empty nodes table still has a column type
+
+
+def _fn_tables(st: dict):
+    """(node rows, node types, edge rows, edge types, node column) of a standalone-function call."""
+    node_col, left, right = st["cols"]
+    el, er = left or f"{node_col}_l", right or f"{node_col}_r"
+    ids = st["ids"]
+    n = len(ids)
+    rng = random.Random(st.get("shuffle", 0))
+    node_order = list(range(n))
+    rng.shuffle(node_order)
+    edges = [tuple(e) for e in st["edges"]]
+    rng.shuffle(edges)
+    idt = _idt(st)
+    if st.get("extra_cols"):
+        ntypes = {"label": "str", node_col: idt, "score": "float"}
+        nrows = [{"label": f"r{i}", node_col: ids[i], "score": i / 7.0} for i in node_order]
+        etypes = {"match_probability": "float", er: idt, "note": "str", el: idt, "match_weight": "float"}
+        erows = [{"match_probability": p, er: ids[b], "note": "e", el: ids[a], "match_weight": 3.5 - a} for a, b, p in edges]
+    else:
+        ntypes = {node_col: idt}
+        nrows = [{node_col: ids[i]} for i in node_order]
+        etypes = {el: idt, er: idt, "match_probability": "float"}
+        erows = [{el: ids[a], er: ids[b], "match_probability": p} for a, b, p in edges]
+    if st.get("no_prob_col"):
+        etypes.pop("match_probability")
+        for r in erows:
+            r.pop("match_probability")
+    return nrows, ntypes, erows, etypes, node_col, left, right
+
+
+def _materialise(api, rows, types, form: str, base: str, k: int):
+    """One input table in the requested form: raw data (pandas / list of records / dict of columns), a SplinkDataFrame registered by
+    the caller under a fresh name or again under the same name (overwrite=True), or just that table's name."""
+    from harness import impl
+
+    df = impl.typed_frame(rows, types)
+    if form in ("raw_records", "raw_dict") and not rows:
+        form = "raw_pandas"  # an empty list / a dict of empty lists carries no column types
+    if form in ("raw_pandas", "reuse"):
+        return df
+    if form == "raw_records":
+        return [dict(r) for r in rows]
+    if form == "raw_dict":
+        return {c: [r[c] for r in rows] for c in types}
+    same = form.endswith("_same")
+    name = base if same else f"{base}_{k}"
+    sdf = api.register_table(df, name, overwrite=same)
+    return sdf if form.startswith("sdf") else name
+
+
+def _build_linker(api, st: dict, node_order, idt):
+    from harness import impl
+    from splink import Linker, SettingsCreator
+
+    ids, sds = st["ids"], st["sds"]
+    uid, sdc = st.get("uid_col", "unique_id"), st.get("sd_col", "source_dataset")
+    names = sorted(set(sds))
+    kw = {}
+    if uid != "unique_id":
+        kw["unique_id_column_name"] = uid
+    if sdc != "source_dataset":
+        kw["source_dataset_column_name"] = sdc
+    link_type = "dedupe_only" if len(names) == 1 else st.get("link_type", "link_and_dedupe")
+    settings = SettingsCreator(link_type=link_type, comparisons=[], blocking_rules_to_generate_predictions=[], **kw)
+    if len(names) > 1 and st.get("layout") == "concat":
+        rows_ = [{uid: ids[i], sdc: sds[i], "v": "x"} for i in node_order]
+        return Linker(impl.typed_frame(rows_, {uid: idt, sdc: "str", "v": "str"}), settings, api, input_table_aliases=st.get("alias"))
+    frames = []
+    for nm in names:
+        rows_ = [{"v": "x", uid: ids[i]} for i in node_order if sds[i] == nm]
+        frames.append(impl.typed_frame(rows_, {"v": "str", uid: idt}))
+    if len(frames) == 1:
+        return Linker(frames[0], settings, api, input_table_aliases=st.get("alias"))
+    default = all(nm.startswith("__splink__input_table_") for nm in names)  # Splink's own aliases become the source dataset names
+    return Linker(frames, settings, api, input_table_aliases=None if default else names)
+
+
+def _predict_frame(st: dict, edges, idt):
+    from harness import impl
+
+    ids, sds = st["ids"], st["sds"]
+    uid, sdc = st.get("uid_col", "unique_id"), st.get("sd_col", "source_dataset")
+    multi = len(set(sds)) > 1
+    rows_, types = [], {}
+    for a, b, p in edges:
+        r = {}
+        if st.get("extra_cols"):
+            r["match_weight"] = 1.25
+        if multi:
+            r[f"{sdc}_l"] = sds[a]
+        r[f"{uid}_l"] = ids[a]
+        if multi:
+            r[f"{sdc}_r"] = sds[b]
+        r[f"{uid}_r"] = ids[b]
+        if not st.get("no_prob_col"):
+            r["match_probability"] = p
+        if st.get("extra_cols"):
+            r["match_key"] = "0"
+        rows_.append(r)
+    if st.get("extra_cols"):
+        types["match_weight"] = "float"
+    if multi:
+        types[f"{sdc}_l"] = "str"
+    types[f"{uid}_l"] = idt
+    if multi:
+        types[f"{sdc}_r"] = "str"
+    types[f"{uid}_r"] = idt
+    if not st.get("no_prob_col"):
+        types["match_probability"] = "float"
+    if st.get("extra_cols"):
+        types["match_key"] = "str"
+    return impl.typed_frame(rows_, types)
+
+
+def run_session(sess: dict) -> dict:
+    """All calls of a session on ONE database API object; per call: the clusters read right after it, the iteration trace and, for
+    results the caller keeps, the clusters read AGAIN after the last call."""
+    from harness import impl
+
+    api = impl.make_api(sess["engine"], threads=sess.get("threads", 2))
+    steps = sess["steps"]
+    outs, kept = [], []
+    linker, prev_args = None, None
+    counts = {}
+    for pos, st in enumerate(steps):
+        try:
+            ids = st["ids"]
+            n = len(ids)
+            idt = _idt(st)
+            thr, kind = st.get("thr"), st.get("thr_kind")
+            kw = {}
+            if thr is not None:
+                kw["threshold_match_weight" if kind == "weight" else "threshold_match_probability"] = thr
+            form = _tup(st["form"])
+            reusable = pos > 0 and prev_args is not None and _same_call_shape(steps[pos - 1], st)
+            if st["entry"] == "fn":
+                from splink.internals.clustering import cluster_pairwise_predictions_at_threshold
+
+                nrows, ntypes, erows, etypes, node_col, left, right = _fn_tables(st)
+                nodes = prev_args[0] if (form[0] == "reuse" and reusable) else _materialise(api, nrows, ntypes, form[0], "user_nodes", st["k"])
+                edges_in = prev_args[1] if (form[1] == "reuse" and reusable) else _materialise(api, erows, etypes, form[1], "user_edges", st["k"])
+                prev_args = (nodes, edges_in)
+                ckw = dict(kw)
+                if left is not None:
+                    ckw["edge_id_column_name_left"] = left
+                if right is not None:
+                    ckw["edge_id_column_name_right"] = right
+                with impl.capture_log(CC_LOGGER) as msgs:
+                    cc = cluster_pairwise_predictions_at_threshold(nodes, edges_in, api, node_col, **ckw)
+                    rows = cc.as_record_dict()
+                key = {ids[i]: i for i in range(n)}
+
+                def parse(rows_, key=key, node_col=node_col):
+                    return sorted((key.get(r.get(node_col), -1), key.get(r.get("cluster_id"), -1)) for r in rows_)
+            else:
+                sds = st["sds"]
+                uid, sdc = st.get("uid_col", "unique_id"), st.get("sd_col", "source_dataset")
+                rng = random.Random(st.get("shuffle", 0))
+                node_order = list(range(n))
+                rng.shuffle(node_order)
+                edges = [tuple(e) for e in st["edges"]]
+                rng.shuffle(edges)
+                if linker is None or pos == 0 or steps[pos - 1].get("epoch") != st.get("epoch"):
+                    linker = _build_linker(api, st, node_order, idt)
+                    reusable = False
+                if form == "reuse" and reusable:
+                    df_predict = prev_args
+                else:
+                    frame = _predict_frame(st, edges, idt)
+                    if form == "table_new":
+                        df_predict = linker.table_management.register_table(frame, f"user_pred_{st['k']}")
+                    elif form == "table_same":
+                        df_predict = linker.table_management.register_table(frame, "user_pred", overwrite=True)
+                    else:
+                        df_predict = linker.table_management.register_table_predict(frame, overwrite=True)
+                prev_args = df_predict
+                with impl.capture_log(CC_LOGGER) as msgs:
+                    cc = linker.clustering.cluster_pairwise_predictions_at_threshold(df_predict, **kw)
+                    rows = cc.as_record_dict()
+                if len(set(sds)) == 1:
+                    key = {str(ids[i]): i for i in range(n)}
+
+                    def parse(rows_, key=key, uid=uid):
+                        return sorted((key.get(str(r.get(uid)), -1), key.get(str(r.get("cluster_id")), -1)) for r in rows_)
+                else:
+                    key = {f"{sds[i]}{impl.SEP}{ids[i]}": i for i in range(n)}
+
+                    def parse(rows_, key=key, uid=uid, sdc=sdc):
+                        return sorted((key.get(f"{r.get(sdc)}{impl.SEP}{r.get(uid)}", -1), key.get(str(r.get("cluster_id")), -1)) for r in rows_)
+            out = {"rows": parse(rows), "trace": impl.cc_trace(msgs), "rows_end": None, "table": cc.physical_name}
+            if st.get("keep", True):
+                kept.append((out, cc, parse))
+            elif any(k_cc.physical_name == cc.physical_name for _, k_cc, _ in kept):
+                # the very table of a result the caller still holds (an identical repeated call is served from the cache): nobody drops that
+                counts["drop_skipped_same_table_as_kept_result"] = counts.get("drop_skipped_same_table_as_kept_result", 0) + 1
+            else:
+                cc.drop_table_from_database_and_remove_from_cache()
+            outs.append(out)
+        except Exception as e:  # noqa: BLE001
+            e.partial = {"failed_step": pos, "steps": outs}
+            raise
+    pos = len(steps)
+    try:
+        for out, cc, parse in kept:
+            out["rows_end"] = parse(cc.as_record_dict())
+    except Exception as e:  # noqa: BLE001
+        e.partial = {"failed_step": "re-reading a kept result after the last call", "steps": outs}
+        raise
+    return {"steps": outs, "counts": counts}
+
+
+run_session_safe = core.safe(run_session)
+
+
+def session_verdict(sess: dict, r: dict):
+    """(index of the first call whose output violates C05, description) or None.  Decided by the union-find oracle on the real output of
+    every call, read right after the call and - for results the caller keeps - once more after the last call."""
+    for k, (st, out) in enumerate(zip(sess["steps"], r["steps"])):
+        if is_threshold_fragile(st):
+            continue
+        v = oracle_verdict(st, out["rows"])
+        if v is not None:
+            return k, v
+        if out.get("rows_end") is not None:
+            v = oracle_verdict(st, out["rows_end"])
+            if v is not None:
+                return k, "result kept by the caller changed under a later call; " + v
+    return None
+
+
+def session_fails(sess: dict):
+    """None if every call of the session satisfies C05 on the real code, else (call index | None, description)."""
+    r = run_session_safe(sess)
+    if "__error__" in r:
+        k = (r.get("partial") or {}).get("failed_step")
+        return (k if isinstance(k, int) else None), f"real code raised {r['__error__']}"
+    return session_verdict(sess, r)
+
+
+def shrink_session(sess: dict, reused: bool) -> dict:
+    """Greedy: drop calls, then edges of the remaining calls (bounded); the failure must stay in the same class (`reused`)."""
+
+    def still(cand):
+        f = session_fails(cand)
+        return f is not None and (f[0] is None or input_names_reused(cand, f[0]) == reused)
+
+    cur = dict(sess)
+    budget = 40
+    changed = True
+    while changed and budget > 0:
+        changed = False
+        for k in range(len(cur["steps"]) - 1, -1, -1):
+            if len(cur["steps"]) <= 1 or budget <= 0:
+                break
+            cand = dict(cur, steps=cur["steps"][:k] + cur["steps"][k + 1 :])
+            budget -= 1
+            if still(cand):
+                cur, changed = cand, True
+    for k in range(len(cur["steps"])):
+        for e in range(len(cur["steps"][k]["edges"]) - 1, -1, -1):
+            if budget <= 0:
+                break
+            st = dict(cur["steps"][k])
+            st["edges"] = st["edges"][:e] + st["edges"][e + 1 :]
+            cand = dict(cur, steps=cur["steps"][:k] + [st] + cur["steps"][k + 1 :])
+            budget -= 1
+            if still(cand):
+                cur = cand
+    return cur
+
+
+def small_graph(rng: random.Random, n: int):
+    fam = rng.choice(["gnp", "gnp", "forest", "path", "star", "cliques", "cycle"])
+    return graphs.family(rng, fam, n)
+
+
+def noisy_edges(rng: random.Random, n: int, pairs, probs: str):
+    edges = with_probs(rng, pairs, probs)
+    extra = []
+    for a, b, p in edges:
+        r = rng.random()
+        if r < 0.08:
+            extra.append((a, b, p))
+        elif r < 0.16:
+            extra.append((b, a, p))
+    if n and rng.random() < 0.2:
+        v = rng.randrange(n)
+        extra.append((v, v, 1.0))
+    return edges + extra
+
+
+def gen_session(rng: random.Random, engine: str, entry: str) -> dict:
+    """1-4 calls of cluster_pairwise_predictions_at_threshold on one database API object (standalone function or linker method):
+    same or different data / thresholds / column names from call to call, every accepted form of the input tables, results kept or
+    dropped in between.  Small graphs (most converge within 1-3 iterations, so consecutive calls run the same statements)."""
+    nsteps = rng.choice([1, 2, 2, 2, 3, 3, 4])
+    same_thr = rng.random() < 0.65
+    same_cols = rng.random() < 0.7
+    same_form = rng.random() < 0.7
+    same_nodes = rng.random() < 0.5
+    idtype = rng.choice(["int", "int", "str", "strmixed"])
+    probs = rng.choice(["grid", "rand", "all1"])
+    big = rng.random() < 0.15
+    steps: list[dict] = []
+    epoch = 0
+    for k in range(nsteps):
+        prev = steps[-1] if steps else None
+        n = rng.randint(2, 20) if big else rng.randint(2, 8)
+        if entry == "fn" and rng.random() < 0.04:
+            n = rng.choice([0, 1])  # an empty nodes table / a single record
+        new_epoch = entry == "linker" and prev is not None and rng.random() < 0.25
+        epoch += 1 if new_epoch else 0
+        share_nodes = prev is not None and (not new_epoch) and (entry == "linker" or same_nodes)
+        repeat_data = prev is not None and not new_epoch and rng.random() < 0.15
+        if repeat_data:
+            st = {kk: prev[kk] for kk in prev}
+            st = dict(st)
+        elif share_nodes:
+            st = dict(prev)
+            st["edges"] = noisy_edges(rng, len(prev["ids"]), small_graph(rng, len(prev["ids"])), probs)
+            st["shuffle"] = rng.randrange(1 << 30)
+        else:
+            st = decorate(rng, n, small_graph(rng, n), engine=engine, entry=entry, order=rng.choice(["random", "identity", "reversed"]),
+                          idtype=idtype if rng.random() < 0.85 else None, probs=probs, thr=None, tag="session")
+            if entry == "linker":
+                multi = len(set(st["sds"])) > 1
+                present = sorted(set(st["sds"]))
+                amode = rng.choice(["names", "names", "default"])
+                if multi and st.get("layout") != "concat":
+                    # source dataset names = the aliases of the input tables: unique per Linker, or Splink's own default aliases
+                    ren = {nm: (f"__splink__input_table_{j}" if amode == "default" else f"{nm}{epoch}") for j, nm in enumerate(present)}
+                    st["sds"] = [ren[x] for x in st["sds"]]
+                    st["alias"] = None
+                else:
+                    st["alias"] = None if amode == "default" else f"inp_{epoch}"
+                st["uid_col"] = rng.choice(["unique_id", "unique_id", "id", "Rec_ID"])
+                st["sd_col"] = rng.choice(["source_dataset", "source_dataset", "src"]) if multi else "source_dataset"
+        st["k"], st["epoch"] = k, epoch
+        st["engine"], st["entry"] = engine, entry
+        # threshold
+        if prev is not None and same_thr:
+            st["thr"], st["thr_kind"] = prev.get("thr"), prev.get("thr_kind")
+        else:
+            t, kind = pick_threshold(rng, st["edges"])
+            st["thr"], st["thr_kind"] = t, kind
+        if st.get("thr_kind") is None:
+            st.pop("thr_kind", None)
+        # shape of the tables
+        if prev is None or not (same_cols or repeat_data):
+            st["cols"] = rng.choice(FN_COLS)
+            st["extra_cols"] = rng.random() < 0.3
+        else:
+            st["cols"], st["extra_cols"] = prev["cols"], prev["extra_cols"]
+        st["no_prob_col"] = st.get("thr") is None and (prev["no_prob_col"] if repeat_data else rng.random() < 0.25)
+        if repeat_data and not st["no_prob_col"] and prev["no_prob_col"]:
+            st["no_prob_col"] = False
+            repeat_data = False  # a threshold needs the probability column: other tables than the previous call's
+        # form of the inputs
+        if entry == "fn":
+            if repeat_data and rng.random() < 0.7:
+                form = ("reuse", "reuse")
+            elif prev is not None and same_form and prev["form"][0] != "reuse":
+                form = prev["form"]
+            else:
+                f = rng.choice(FN_FORM_WEIGHTED)
+                form = (f, f if rng.random() < 0.75 else rng.choice(FN_FORMS[:-1]))
+        else:
+            if repeat_data and rng.random() < 0.7:
+                form = "reuse"
+            elif prev is not None and same_form and prev["form"] != "reuse":
+                form = prev["form"]
+            else:
+                form = rng.choice(PREDICT_FORMS[:-1])
+        st["form"] = form
+        st["keep"] = rng.random() < 0.7
+        steps.append(st)
+    return {"session": True, "engine": engine, "entry": entry, "steps": steps, "tag": "session", "n": max(len(s["ids"]) for s in steps),
+            "ids": steps[0]["ids"], "edges": steps[0]["edges"]}
 
 
 def gen_cases(ctx: core.Ctx) -> list[dict]:
@@ -311,6 +770,9 @@ def gen_cases(ctx: core.Ctx) -> list[dict]:
         pairs = graphs.family(rng, fam, n)
         order = rng.choice(["identity", "reversed", "bitrev", "zigzag", "random", "random"])
         cases.append(decorate(rng, n, pairs, engine=eng(), entry=rng.choice(["fn", "fn", "linker"]), order=order, tag=fam))
+    # (4) sessions: 1-4 calls on ONE database API object (see gen_session)
+    for _ in range(ctx.budget(220, 1200)):
+        cases.append(gen_session(rng, eng(), rng.choice(["fn", "fn", "linker"])))
     if ctx.thorough:
         for order in ["identity", "bitrev", "zigzag"]:
             n = 1200
@@ -324,6 +786,8 @@ def gen_cases(ctx: core.Ctx) -> list[dict]:
 # --------------------------------------------------------------------------- comparison
 def compare(ctx: core.Ctx, cases: list[dict], drv: core.Driver, label="corr"):
     """Run impl + model on all cases; returns list of (case, problem, concrete?)."""
+    sessions = [c for c in cases if c.get("session")]
+    cases = [c for c in cases if not c.get("session")]
     reqs, orders = [], []
     for c in cases:
         r, o = model_request(c)
@@ -338,6 +802,7 @@ def compare(ctx: core.Ctx, cases: list[dict], drv: core.Driver, label="corr"):
         res[i] = run_impl_safe(cases[i])
     mres = drv.pbatch(reqs)
     problems = []
+    sql_items = []  # small standalone cases on which the regenerated SQL is evaluated by Rel.eval (translation validation)
     for c, order, r, m in zip(cases, orders, res, mres):
         n = len(c["ids"])
         comps = oracle_clusters(c)
@@ -375,6 +840,7 @@ def compare(ctx: core.Ctx, cases: list[dict], drv: core.Driver, label="corr"):
         if fragile:
             ctx.count("excluded", "weight threshold within 1e-12 of an edge probability / SQLite misreads the threshold literal")
             continue
+        sql_items.append((c, order, r, oracle_threshold(c)))
         if mrows != r["rows"]:
             problems.append((c, "cluster table differs from Lean model CC.cluster (real output still satisfies the property)", False, r))
             continue
@@ -382,6 +848,102 @@ def compare(ctx: core.Ctx, cases: list[dict], drv: core.Driver, label="corr"):
             problems.append((c, f"per-iteration needs_updating counts differ from Lean model CC.trace: impl {r['trace'][:12]} model {m['trace'][:12]}", False, r))
             continue
         ctx.traces_validated += 1
+    from harness.props import c05_sql
+
+    problems += c05_sql.validate(ctx, sql_items, drv)
+    return problems + compare_sessions(ctx, sessions, drv)
+
+
+def compare_sessions(ctx: core.Ctx, sessions: list[dict], drv: core.Driver):
+    """Sessions: every call is judged by the oracle (right after the call; kept results once more after the last call) and compared
+    with the Lean model like a single case.  Returns (session, problem, concrete?, impl result) like compare()."""
+    if not sessions:
+        return []
+    reqs, orders = [], []
+    for s in sessions:
+        for st in s["steps"]:
+            r, o = model_request(st)
+            reqs.append(r)
+            orders.append(o)
+    res = core.pmap(run_session_safe, sessions, chunksize=2)
+    mres = drv.pbatch(reqs)
+    problems = []
+    pos = 0
+    for s, r in zip(sessions, res):
+        steps = s["steps"]
+        ms, os_ = mres[pos : pos + len(steps)], orders[pos : pos + len(steps)]
+        pos += len(steps)
+        ctx.count("family", "session")
+        ctx.count("session_calls", len(steps))
+        ctx.count("session_entry", s["entry"])
+        ctx.count("session_engine", s["engine"])
+        if len(steps) > 1:
+            ctx.count("session_thresholds", "same in every call" if len({(st.get("thr"), st.get("thr_kind")) for st in steps}) == 1 else "differ")
+            ctx.count("session_column_names", "same in every call" if len({(_tup(st["cols"]) if s["entry"] == "fn" else (st.get("uid_col"), st.get("sd_col"))) for st in steps}) == 1 else "differ")
+            ctx.count("session_linkers_on_the_api", len({st["epoch"] for st in steps}) if s["entry"] == "linker" else "n/a")
+        for k, st in enumerate(steps):
+            n = len(st["ids"])
+            comps = oracle_clusters(st)
+            nontrivial = any(list(comps.values()).count(v) >= 3 for v in set(comps.values()))
+            ctx.case({"session_call": k, "of": [(_step_content(x), x.get("thr"), _tup(x["form"])) for x in steps[: k + 1]], "entry": s["entry"], "engine": s["engine"]},
+                     nontrivial and k > 0, sample=None)
+            ctx.count("engine", s["engine"])
+            ctx.count("entry", s["entry"])
+            ctx.count("n_nodes", "0-4" if n <= 4 else "5-8" if n <= 8 else "9-40")
+            if n == 0:
+                ctx.count("session_empty_nodes_table", True)
+            ctx.count("threshold", "none" if st.get("thr") is None else st.get("thr_kind"))
+            form = _tup(st["form"])
+            if s["entry"] == "fn":
+                ctx.count("session_fn_nodes_form", form[0])
+                ctx.count("session_fn_edges_form", form[1])
+                ctx.count("session_fn_columns", "/".join(str(x) for x in st["cols"]))
+            else:
+                ctx.count("session_linker_predict_form", form)
+                ctx.count("session_linker_unique_id_column", st.get("uid_col"))
+                ctx.count("session_linker_source_dataset_column", st.get("sd_col") if len(set(st["sds"])) > 1 else "n/a (one dataset)")
+                ctx.count("session_linker_input_aliases", "default (__splink__input_table_<i>)" if (st.get("alias") is None and (len(set(st["sds"])) == 1 or st.get("layout") == "concat" or st["sds"][0].startswith("__splink__"))) else "explicit")
+            ctx.count("session_result", "kept" if st.get("keep", True) else "dropped")
+            ctx.count("session_extra_columns", bool(st.get("extra_cols")))
+            ctx.count("session_edges_without_match_probability_column", bool(st.get("no_prob_col")))
+            if k > 0:
+                ctx.count("session_data_vs_previous_call", "same" if _step_content(steps[k - 1]) == _step_content(st) else "same nodes, other edges" if list(steps[k - 1]["ids"]) == list(st["ids"]) and steps[k - 1].get("sds") == st.get("sds") else "other nodes and edges")
+                ctx.count("session_input_names_reused_with_other_content", input_names_reused(s, k))
+                if (not input_names_reused(s, k) and _step_content(steps[k - 1]) != _step_content(st) and steps[k - 1].get("keep", True)
+                        and (steps[k - 1].get("thr"), steps[k - 1].get("thr_kind")) == (st.get("thr"), st.get("thr_kind"))):
+                    ctx.count("session_other_data_same_threshold_previous_result_kept", "raw inputs" if None in step_table_names(steps, k) else "fresh table names")
+        if len(ctx.samples) < 6 and len(steps) > 1 and sum(1 for x in ctx.samples if isinstance(x, dict) and "session" in x) < 2:
+            ctx.samples.append({"session": {"engine": s["engine"], "entry": s["entry"], "calls": [{kk: st[kk] for kk in st if kk not in ("shuffle", "engine", "entry", "tag", "n", "order")} for st in steps]},
+                                "impl": r.get("steps") if isinstance(r, dict) else None})
+        if core.impl_error(r):
+            ctx.count("impl_error", r["__error__"])
+            problems.append((s, f"call {(r.get('partial') or {}).get('failed_step')}: real code raised {r['__error__']}: {r['text'][:300]}", True, r))
+            continue
+        for kk, vv in (r.get("counts") or {}).items():
+            ctx.count("session_" + kk, True, vv)
+        bad = session_verdict(s, r)
+        if bad is not None:
+            problems.append((s, f"call {bad[0] + 1} of {len(steps)}: {bad[1]}", True, r))
+            continue
+        for k, (st, m, order) in enumerate(zip(steps, ms, os_)):
+            out = r["steps"][k]
+            if "error" in m and ctx.lean.ok:
+                raise core.HarnessError(f"model driver error: {m['error']}")
+            ctx.count("iterations", len(out["trace"]) if len(out["trace"]) < 6 else "6-20" if len(out["trace"]) <= 20 else ">20")
+            if "error" in m:
+                ctx.count("model_unavailable", m["error"][:80])
+                continue
+            if is_threshold_fragile(st):
+                ctx.count("excluded", "weight threshold within 1e-12 of an edge probability / SQLite misreads the threshold literal")
+                continue
+            mrows = sorted((order[a], order[b]) for a, b in m["clusters"])
+            if mrows != out["rows"]:
+                problems.append((s, f"call {k + 1}: cluster table differs from Lean model CC.cluster (real output still satisfies the property)", False, r))
+                break
+            if m["trace"] != out["trace"]:
+                problems.append((s, f"call {k + 1}: per-iteration needs_updating counts differ from Lean model CC.trace: impl {out['trace'][:12]} model {m['trace'][:12]}", False, r))
+                break
+            ctx.traces_validated += 1
     return problems
 
 
@@ -425,13 +987,52 @@ def impl_fails_property(case: dict) -> bool:
 
 
 # --------------------------------------------------------------------------- entry
+def report_session(ctx: core.Ctx, sess: dict, w: str, r, seen_keys: set):
+    """One VIOLATION per (entry, does the failing call read tables re-registered under the names of an earlier call?)."""
+    f = session_verdict(sess, r) if isinstance(r, dict) and "steps" in r and "__error__" not in r else None
+    k = f[0] if f else (r.get("partial") or {}).get("failed_step") if isinstance(r, dict) else None
+    reused = input_names_reused(sess, k) if isinstance(k, int) else False
+    key = ("session", sess["entry"], reused)
+    if key in seen_keys or len(seen_keys) >= 5:
+        return
+    seen_keys.add(key)
+    small = shrink_session(sess, reused)
+    rr = run_session_safe(small)
+    if "__error__" in rr:
+        fk, what = (rr.get("partial") or {}).get("failed_step"), f"real code raised {rr['__error__']}: {rr.get('text', '')[:200]}"
+    else:
+        ff = session_verdict(small, rr)
+        fk, what = (ff[0], ff[1]) if ff else (None, w)
+    failure = what.split(":")[0]
+    how = ("the failing call reads tables registered again under the names an earlier call used" if reused
+           else "the failing call is given raw data or tables under fresh names")
+    calls = [{kk: st[kk] for kk in st if kk not in ("engine", "entry", "tag", "n", "order")} for st in small["steps"]]
+    ctx.violation(
+        f"real output violates C05 in a sequence of calls on one database API ({sess['entry']}; {how}): {failure}",
+        {"case": small,
+         "calls": calls, "failing_call_index": fk, "observed": rr,
+         "expected_clusters_per_call": [oracle_clusters(st) for st in small["steps"]],
+         "input_table_names_per_call": [step_table_names(small["steps"], i) for i in range(len(small["steps"]))],
+         "detail": what, "original_calls": len(sess["steps"])},
+        kind="concrete",
+        match_info={"entry": sess["entry"], "failure": failure, "engine": sess["engine"], "sqlite_compound_select_limit": False,
+                    "session": True, "input_names_reused": reused},
+    )
+
+
 def run(ctx: core.Ctx):
     ctx.rule = (
         "cases = every labelled graph on <=4 nodes under every id permutation (exhaustive), every labelled graph on 5 nodes "
         "(6 in thorough) batched as disjoint unions plus a sample singly, structured families (paths/cycles with identity, reversed, "
         "bit-reversal, zig-zag and random id orders; stars; cliques joined by bridges; caterpillars; G(n,p); forests; grids) with duplicate/"
         "reversed edges and self loops, int/str/mixed-width-str/composite ids, thresholds none / equal to an edge probability / random / "
-        "match weight; entry = standalone function or linker method (1-3 tables, overlapping ids); engines duckdb+sqlite (+spark thorough). "
+        "match weight / boundary values (0, -0.0, 1, outside [0,1], exponent-form literal, weights +-60); entry = standalone function or linker "
+        "method (1-3 tables, overlapping ids); engines duckdb+sqlite (+spark thorough); sessions = 1-4 calls on ONE database API object "
+        "(standalone function: nodes/edges as pandas / list of records / dict of columns / SplinkDataFrame / table name, registered under "
+        "fresh names or again under the same name, given / defaulted edge column names, further columns, no match_probability column; linker "
+        "method: predictions via register_table_predict(overwrite=True) / register_table under fresh or repeated names, 1-3 Linkers on the "
+        "API, non-default unique id / source dataset column names, default / explicit input aliases; same or different data, thresholds, "
+        "column names from call to call; results kept - and read again after the last call - or dropped). "
         "non-trivial = the thresholded graph has a component with >= 3 nodes; distinct = hash of (ids, edges, threshold, entry, engine)."
     )
     ctx.assumptions = [
@@ -442,10 +1043,13 @@ def run(ctx: core.Ctx):
     from harness.translate import tarith
 
     errs = tarith.write({"threshold_args_to_match_prob", "bayes_factor_to_prob", "match_weight_to_bayes_factor"})  # Generated/Arith.lean: the model's threshold conversion is the translated threshold_args_to_match_prob
+    from harness.props import c05_sql
+
+    sql_errs = c05_sql.prepare()  # Generated/CCSql.lean: the SQL solve_connected_components emits now, as Rel terms (T-sql); Properties/C05Sql.lean is re-checked against it
     ctx.lean = core.lean_check(PROP, ctx.thorough)
-    if errs:
+    if errs or sql_errs:
         ctx.lean.ok = False
-        ctx.lean.problems += ["T-arith: " + e for e in errs]
+        ctx.lean.problems += ["T-arith: " + e for e in errs] + ["T-sql: " + e for e in sql_errs]
     drv = core.Driver()
     if ctx.replay:
         import json
@@ -453,6 +1057,10 @@ def run(ctx: core.Ctx):
         body = json.loads(open(ctx.replay).read())
         case = body["replay"]["case"]
         case["edges"] = [tuple(e) for e in case["edges"]]
+        for st in case.get("steps", []):  # a session: JSON turned the tuples into lists
+            st["edges"] = [tuple(e) for e in st["edges"]]
+            st["form"] = _tup(st["form"])
+            st["cols"] = _tup(st["cols"])
         cases = [case]
     else:
         corpus = graphs.load_corpus(PROP)
@@ -477,6 +1085,9 @@ def run(ctx: core.Ctx):
     broken = [(c, w, r) for c, w, conc, r in problems if not conc]
     seen_keys = set()
     for c, w, r in concrete:
+        if c.get("session"):
+            report_session(ctx, c, w, r, seen_keys)
+            continue
         # SQLite refuses a compound SELECT of more than 500 terms; the final UNION ALL has one term per iteration (finding K12)
         limit = isinstance(r, dict) and "too many terms in compound SELECT" in r.get("text", "")
         key = (c["entry"], w.split(":")[0], c["engine"] if limit else None, limit)
